@@ -134,7 +134,8 @@ const (
 	ChFunc     = 3 // kf(r,3)         injected function
 	ChThree    = 4 // Req.In.K(r,4)   three-level call
 	ChAsgLoc2  = 5 // q = H.K(r,5)
-	NumChild   = 6
+	ChLocField = 6 // H.KA(r,6, lp.X)   reads a field of a rule-local struct assigned before the block
+	NumChild   = 7
 )
 
 // Render produces the rule text.  Point numbers p are section positions, so a
@@ -199,6 +200,9 @@ func (r *RuleDef) Render() string {
 		case SecSetNil:
 			fmt.Fprintf(&b, "H.B(%d,%d)\nN%d.X = 1\n", id, p, id)
 		case SecConc:
+			if s.Arg&(1<<ChLocField) != 0 {
+				fmt.Fprintf(&b, "lp%d = H.Obj(%d)\n", p, id)
+			}
 			b.WriteString("conc {\n")
 			if s.Arg&(1<<ChAsgLocal) != 0 {
 				fmt.Fprintf(&b, "p%d = H.K(%d,%d)\n", p, id, p*8+ChAsgLocal)
@@ -217,6 +221,9 @@ func (r *RuleDef) Render() string {
 			}
 			if s.Arg&(1<<ChAsgLoc2) != 0 {
 				fmt.Fprintf(&b, "q%d = H.K(%d,%d)\n", p, id, p*8+ChAsgLoc2)
+			}
+			if s.Arg&(1<<ChLocField) != 0 {
+				fmt.Fprintf(&b, "H.KA(%d,%d,lp%d.X)\n", id, p*8+ChLocField, p)
 			}
 			b.WriteString("}\n")
 			// the statement after the block reads every assigned local / field
